@@ -37,6 +37,7 @@ use verif_harness::{Cfg, guarded};
 /// slack granted to every timing expectation
 const SLACK: Duration = Duration::from_secs(5);
 const DA_REPLY: &[u8] = b"\x1b[?62;4c";
+const CPR_REPLY: &[u8] = b"\x1b[5;7R";
 const SIZE_REPLY: &[u8] = b"\x1b[8;50;132t\x1b[4;1000;1320t";
 
 // ------------------------------------------------------------------------------------------------ script
@@ -76,6 +77,10 @@ enum Step {
     /// close the master side
     HangUp,
     Sleep(u64),
+    /// `position()`: the emulator answers the cursor-position query after `delay_ms`; meanwhile a thread wakes
+    /// after `wake_us`, the typist types `key` after `key_us`; `suffix` is typed by the emulator in the same write as
+    /// its device-attributes answer
+    Position { wake_us: u64, key: Vec<u8>, key_us: u64, delay_ms: u64, suffix: Vec<u8> },
 }
 
 impl Step {
@@ -100,6 +105,7 @@ impl Step {
             Step::PeerResume => "pr".into(),
             Step::HangUp => "hup".into(),
             Step::Sleep(us) => format!("s:{us}"),
+            Step::Position { wake_us, key, key_us, delay_ms, suffix } => format!("pos:{wake_us}:{}:{key_us}:{delay_ms}:{}", hex(key), hex(suffix)),
         }
     }
     fn parse(t: &str) -> Option<Step> {
@@ -126,6 +132,7 @@ impl Step {
             ["pr"] => Step::PeerResume,
             ["hup"] => Step::HangUp,
             ["s", us] => Step::Sleep(us.parse().ok()?),
+            ["pos", w, k, ku, d, sfx] => Step::Position { wake_us: w.parse().ok()?, key: unhex(k)?, key_us: ku.parse().ok()?, delay_ms: d.parse().ok()?, suffix: unhex(sfx)? },
             _ => return None,
         })
     }
@@ -155,6 +162,8 @@ struct Session {
     termios: u64,
     /// the peer answers the size queries, so that the terminal takes its size from escape sequences
     size_esc: bool,
+    /// the pty slave is duplicated onto (at least) this descriptor number before the terminal is opened
+    high_fd: Option<i32>,
     label: String,
 }
 
@@ -163,7 +172,7 @@ impl Session {
         json!({
             "steps": self.steps.iter().map(|s| s.token()).collect::<Vec<_>>(),
             "drop_at": self.drop_at, "run_handler": self.run_handler.map(|(k, q)| json!([k, q])),
-            "termios": self.termios.to_string(), "size_esc": self.size_esc, "render": self.render, "label": self.label,
+            "termios": self.termios.to_string(), "size_esc": self.size_esc, "render": self.render, "high_fd": self.high_fd, "label": self.label,
         })
     }
     fn from_json(v: &Value) -> Option<Session> {
@@ -174,6 +183,7 @@ impl Session {
             termios: v["termios"].as_str().and_then(|s| s.parse().ok()).unwrap_or(0),
             size_esc: v["size_esc"].as_bool().unwrap_or(false),
             render: v["render"].as_bool().unwrap_or(false),
+            high_fd: v["high_fd"].as_i64().map(|n| n as i32),
             label: v["label"].as_str().unwrap_or("replay").to_string(),
         })
     }
@@ -308,6 +318,8 @@ static MASTER_WRITE_RETRIES: AtomicU64 = AtomicU64::new(0);
 /// writes to the master come from two threads (peer, typist): a non-blocking tty write fails with EAGAIN while
 /// another writer holds the tty's write lock, and may be short — serialise and repeat until everything is written
 static MASTER_WRITE: Mutex<()> = Mutex::new(());
+/// set when a poll stayed blocked for another 5 s after the harness tried everything to unblock it
+static HOPELESS: AtomicBool = AtomicBool::new(false);
 
 fn master_write(master: RawFd, bytes: &[u8]) -> bool {
     let _guard = MASTER_WRITE.lock().unwrap_or_else(|e| e.into_inner());
@@ -336,6 +348,11 @@ struct Shared {
     at_da: Mutex<Vec<(usize, Option<Vec<u32>>, Instant)>>,
     paused: AtomicBool,
     answer_size: AtomicBool,
+    /// delay before the cursor-position query is answered (ms)
+    reply_delay_ms: AtomicU64,
+    /// typed by the emulator right behind its next device-attributes answer (same write)
+    da_suffix: Mutex<Vec<u8>>,
+    typed: Arc<Mutex<Vec<u8>>>,
     stop: AtomicBool,
     last_data_ms: AtomicU64,
     origin: Instant,
@@ -376,8 +393,26 @@ fn peer(master: RawFd, keep: RawFd, shared: Arc<Shared>) {
         while i < tail.len() {
             if tail[i..].starts_with(b"\x1b[c") {
                 shared.at_da.lock().unwrap().push((base, termios_words(keep), Instant::now()));
-                master_write(master, DA_REPLY);
+                let suffix = std::mem::take(&mut *shared.da_suffix.lock().unwrap());
+                if suffix.is_empty() {
+                    master_write(master, DA_REPLY);
+                } else {
+                    let mut reply = DA_REPLY.to_vec();
+                    reply.extend_from_slice(&suffix);
+                    let mut log = shared.typed.lock().unwrap();
+                    if master_write(master, &reply) {
+                        log.extend_from_slice(&suffix);
+                    }
+                }
                 i += 3;
+                done = i;
+            } else if tail[i..].starts_with(b"\x1b[6n") {
+                let delay = shared.reply_delay_ms.swap(0, Ordering::SeqCst);
+                if delay > 0 {
+                    std::thread::sleep(Duration::from_millis(delay));
+                }
+                master_write(master, CPR_REPLY);
+                i += 4;
                 done = i;
             } else if tail[i..].starts_with(b"\x1b[14t") {
                 if shared.answer_size.load(Ordering::SeqCst) {
@@ -427,6 +462,9 @@ struct It {
     wk_pending: Option<u64>,
     wk: Option<String>,
     inp: Option<String>,
+    /// was the tty registered for writability when `select` was called (recorded for successful selects)
+    interest: Option<bool>,
+    sel_slot: Option<usize>,
 }
 
 impl It {
@@ -452,7 +490,7 @@ struct PollModel {
 }
 
 /// environment answers of one `poll`, reconstructed from the records between its `PollStart` and the next one
-fn poll_model(recs: &[Rec], timeout_ns: Option<u128>, size_esc: bool) -> PollModel {
+fn poll_model(recs: &[Rec], timeout_ns: Option<u128>, size_esc: bool, after_nonempty: bool) -> PollModel {
     let mut its: Vec<It> = Vec::new();
     let mut m = PollModel { env: String::new(), reads: vec![], pushed: vec![], iterations: 0, retries: 0, waker_reads: vec![] };
     let mut wk_read_slot: Option<usize> = None;
@@ -465,7 +503,7 @@ fn poll_model(recs: &[Rec], timeout_ns: Option<u128>, size_esc: bool) -> PollMod
                     _ => 0,
                 };
                 m.reads.push(match delay_ns { Some(d) => format!("S{d}"), None => "Sn".into() });
-                its.push(It { now, ..Default::default() });
+                its.push(It { now, sel_slot: Some(m.reads.len() - 1), ..Default::default() });
                 m.iterations += 1;
             }
             Rec::Break => {
@@ -540,8 +578,26 @@ fn poll_model(recs: &[Rec], timeout_ns: Option<u128>, size_esc: bool) -> PollMod
                 }
                 m.reads.push(format!("R{}", bytes.len()));
             }
+            Rec::Interest(b) => {
+                if let Some(it) = its.last_mut() {
+                    it.interest = Some(*b);
+                }
+            }
             Rec::PollStart { .. } | Rec::Dispose { .. } | Rec::Restore(_) => {}
         }
+    }
+    // interest in writability at every `select`: recorded when the call succeeded; an interrupted or failed call leaves
+    // the queue as it is, so its interest is that of the next call (or the state of the queue when the poll returned)
+    let mut next = after_nonempty;
+    for it in its.iter().rev() {
+        if let Some(slot) = it.sel_slot {
+            let w = it.interest.unwrap_or(next);
+            m.reads[slot].push_str(if w { "w1" } else { "w0" });
+            next = w;
+        }
+    }
+    for t in m.pushed.iter_mut() {
+        *t = model_token(t);
     }
     // an iteration cut short before `select` answered (cannot happen: select always answers) keeps sel empty
     for it in its.iter_mut() {
@@ -603,10 +659,15 @@ fn trace_oracle(recs: &[Rec], size_esc: bool, io_error: bool) -> Vec<(&'static s
     out
 }
 
+/// the hook's event token as the model driver prints it
+fn model_token(t: &str) -> String {
+    if t.starts_with("o:CursorPosition") { "cpr".to_string() } else { t.to_string() }
+}
+
 fn result_token(r: &Result<Option<TerminalEvent>, Error>) -> String {
     match r {
         Ok(None) => "ok:none".into(),
-        Ok(Some(e)) => format!("ok:{}", verif_c17::canon(e)),
+        Ok(Some(e)) => format!("ok:{}", model_token(&verif_c17::canon(e))),
         Err(Error::Quit) => "err:quit".into(),
         Err(_) => "err:io".into(),
     }
@@ -718,7 +779,7 @@ impl Runner {
             }
         }
         let timeout_ns = timeout.map(|d| d.as_nanos());
-        let m = poll_model(&recs, timeout_ns, self.size_esc);
+        let m = poll_model(&recs, timeout_ns, self.size_esc, verif_c17::queue(term).1 > 0);
         self.out.iterations += m.iterations;
         self.out.select_retries += m.retries;
         self.out.coalesced_reads += m.waker_reads.iter().filter(|k| **k > 1).count();
@@ -793,6 +854,77 @@ impl Runner {
                 self.poll_failed = true;
                 if !self.hung_up && self.out.inconclusive.is_none() {
                     self.out.inconclusive = Some(format!("poll-error:{e:?}"));
+                }
+            }
+        }
+    }
+
+    /// book-keeping after `position()` returned: its inner polls are replayed through the model's `position`
+    fn after_position(&mut self, term: &SystemTerminal, result: &Result<Position, Error>) {
+        self.in_poll.lock().unwrap().since = None;
+        self.shared.reply_delay_ms.store(0, Ordering::SeqCst);
+        let recs = verif_c17::take_trace();
+        for x in recs.iter() {
+            match x {
+                Rec::TtyRead(b) => self.input_log.push(format!("read:{}", String::from_utf8_lossy(b).escape_default())),
+                Rec::Pushed(t) if t != "wake" => self.input_log.push(format!("push:{t}")),
+                _ => {}
+            }
+        }
+        // one segment per inner poll
+        let mut segs: Vec<(Option<u128>, Vec<Rec>)> = Vec::new();
+        for x in recs.iter() {
+            match x {
+                Rec::PollStart { timeout_ns, .. } => segs.push((*timeout_ns, Vec::new())),
+                other => {
+                    if let Some(sg) = segs.last_mut() {
+                        sg.1.push(other.clone());
+                    }
+                }
+            }
+        }
+        let nonempty_after = verif_c17::queue(term).1 > 0;
+        let mut envs = Vec::new();
+        let mut pushed: Vec<String> = Vec::new();
+        let n = segs.len();
+        for (i, (to, sg)) in segs.iter().enumerate() {
+            // (queue state between inner polls is not observed: assume pending output while more polls follow)
+            let m = poll_model(sg, *to, self.size_esc, if i + 1 == n { nonempty_after } else { true });
+            self.out.iterations += m.iterations;
+            self.out.select_retries += m.retries;
+            envs.push(m.env);
+            pushed.extend(m.pushed);
+        }
+        self.out.polls += n;
+        let res = match result {
+            Ok(_) => "ok",
+            Err(Error::Quit) => "err:quit",
+            Err(_) => "err:io",
+        };
+        let evq: Vec<String> = verif_c17::events_queue(term).iter().map(|t| model_token(t)).collect();
+        self.req.push_str(&format!(" q:{}", if envs.is_empty() { "-".to_string() } else { envs.join("/") }));
+        self.exp.push(format!("{res}[{}]{}[{}]", list(&pushed), self.state_token(term), list(&evq)));
+        for (what, exp, got) in trace_oracle(&recs, self.size_esc, matches!(result, Err(e) if !matches!(e, Error::Quit))) {
+            self.fail(what, exp, got);
+        }
+        if self.stuck.swap(false, Ordering::SeqCst) {
+            self.fail("position() did not return within 10 s although the emulator answered (the harness had to unblock it)",
+                "position returns".into(), "still inside position()".into());
+        }
+        match result {
+            Ok(_) => {}
+            Err(Error::Quit) => {
+                self.out.quits += 1;
+                self.quit_seen = true;
+                self.poll_failed = true;
+                if self.term_raised.is_none() && !self.hung_up && self.out.inconclusive.is_none() {
+                    self.out.inconclusive = Some("quit-inside-position".into());
+                }
+            }
+            Err(e) => {
+                self.poll_failed = true;
+                if !self.hung_up && self.out.inconclusive.is_none() {
+                    self.out.inconclusive = Some(format!("position-error:{e:?}"));
                 }
             }
         }
@@ -914,6 +1046,29 @@ impl Runner {
                 }
             }
             Step::Sleep(us) => std::thread::sleep(Duration::from_micros(*us)),
+            Step::Position { wake_us, key, key_us, delay_ms, suffix } => {
+                self.shared.paused.store(false, Ordering::SeqCst);
+                self.shared.reply_delay_ms.store(*delay_ms, Ordering::SeqCst);
+                *self.shared.da_suffix.lock().unwrap() = suffix.clone();
+                if *wake_us > 0 {
+                    let (waker, times, d) = (self.waker.clone(), self.wake_times.clone(), *wake_us);
+                    self.waker_threads.push(std::thread::spawn(move || {
+                        std::thread::sleep(Duration::from_micros(d));
+                        let at = Instant::now();
+                        if waker.wake().is_ok() {
+                            times.lock().unwrap().push(at);
+                        }
+                    }));
+                }
+                if !key.is_empty() {
+                    self.typist_pending.fetch_add(1, Ordering::SeqCst);
+                    let _ = self.keys_tx.send((key.clone(), *key_us));
+                }
+                let _ = verif_c17::take_trace();
+                self.before_poll(None);
+                let res = term.position();
+                self.after_position(term, &res);
+            }
             Step::Poll(_) => unreachable!(),
         }
     }
@@ -1014,11 +1169,27 @@ fn run_session(s: &Session) -> Outcome {
             return outcome;
         }
     };
+    // descriptor numbering is the caller's business: sometimes hand the terminal a tty descriptor far above the sockets it
+    // creates itself
+    let slave = match s.high_fd {
+        Some(n) => unsafe {
+            let nfd = libc::fcntl(slave, libc::F_DUPFD, n);
+            if nfd >= 0 {
+                libc::close(slave);
+                nfd
+            } else {
+                slave
+            }
+        },
+        None => slave,
+    };
     // our own descriptor of the slave for the whole session: the pty must outlive the terminal
     let keep = unsafe { libc::dup(slave) };
     install_termios(keep, s.termios);
     let before = termios_words(keep);
+    let typed: Arc<Mutex<Vec<u8>>> = Arc::new(Mutex::new(Vec::new()));
     let shared = Arc::new(Shared {
+        reply_delay_ms: AtomicU64::new(0), da_suffix: Mutex::new(Vec::new()), typed: typed.clone(),
         received: Mutex::new(Vec::new()), count: AtomicUsize::new(0), at_da: Mutex::new(Vec::new()),
         paused: AtomicBool::new(false), answer_size: AtomicBool::new(s.size_esc), stop: AtomicBool::new(false), last_data_ms: AtomicU64::new(0), origin: Instant::now(),
     });
@@ -1026,7 +1197,6 @@ fn run_session(s: &Session) -> Outcome {
         let shared = shared.clone();
         std::thread::spawn(move || peer(master, keep, shared))
     };
-    let typed = Arc::new(Mutex::new(Vec::new()));
     let typist_pending = Arc::new(AtomicUsize::new(0));
     let master_closed = Arc::new(AtomicBool::new(false));
     let (keys_tx, keys_rx) = mpsc::channel();
@@ -1052,11 +1222,14 @@ fn run_session(s: &Session) -> Outcome {
         }
     };
     // settle: everything the constructor queued is sent, nothing is waiting in the event queue
+    let mut setup_note: Option<String> = None;
     let t0 = Instant::now();
     loop {
         let r = term.poll(Some(Duration::from_millis(1)));
         if t0.elapsed() > SLACK || r.is_err() {
-            outcome.inconclusive = Some("setup-not-settled".into());
+            // the script is not run; the terminal is released and judged (restore, closing sequence); only when that
+            // finds nothing is the session put aside as inconclusive
+            setup_note = Some("setup-not-settled".to_string());
             break;
         }
         if term.frames_pending() == 0 && matches!(r, Ok(None)) && shared.count.load(Ordering::SeqCst) >= term.stats().send {
@@ -1096,6 +1269,9 @@ fn run_session(s: &Session) -> Outcome {
                 let since = in_poll.lock().unwrap().since;
                 if let Some((st, to)) = since {
                     let limit = to.unwrap_or(SLACK) + SLACK;
+                    if fired_for == Some(st) && st.elapsed() > limit + SLACK {
+                        HOPELESS.store(true, Ordering::SeqCst);
+                    }
                     if st.elapsed() > limit && fired_for != Some(st) {
                         fired_for = Some(st);
                         stuck.store(true, Ordering::SeqCst);
@@ -1112,7 +1288,7 @@ fn run_session(s: &Session) -> Outcome {
     let n_steps = s.drop_at.unwrap_or(s.steps.len()).min(s.steps.len());
     let steps: Vec<Step> = s.steps[..n_steps].to_vec();
     let mut panicked = false;
-    if r.out.inconclusive.is_none() {
+    if r.out.inconclusive.is_none() && setup_note.is_none() {
         let body = guarded(|| {
             match s.run_handler {
                 None => {
@@ -1290,7 +1466,7 @@ fn run_session(s: &Session) -> Outcome {
             match x {
                 Rec::Dispose { step, queued, events, signals_closed } => {
                     if let Some(sg) = seg.take() {
-                        polls.push(poll_model(&sg, Some(1_000_000_000), size_esc).env);
+                        polls.push(poll_model(&sg, Some(1_000_000_000), size_esc, *queued > 0).env);
                     }
                     last_state = (*queued, *events);
                     match *step {
@@ -1332,6 +1508,9 @@ fn run_session(s: &Session) -> Outcome {
         }
     }
     r.out.wakes = r.wake_times.lock().unwrap().len();
+    if let (Some(note), true, None) = (setup_note, r.out.failures.is_empty(), &r.out.inconclusive) {
+        r.out.inconclusive = Some(note);
+    }
     // shut down
     r.shared.stop.store(true, Ordering::SeqCst);
     let Runner { keys_tx, req, exp, mut out, .. } = r;
@@ -1356,7 +1535,9 @@ fn keys(rng: &mut Rng, n: usize) -> Vec<u8> {
 }
 
 fn sess(label: &str, steps: Vec<Step>, termios: u64) -> Session {
-    Session { steps, drop_at: None, run_handler: None, render: false, termios, size_esc: termios % 5 == 0, label: label.to_string() }
+    Session { steps, drop_at: None, run_handler: None, render: false, termios, size_esc: termios % 5 == 0,
+        high_fd: match termios % 8 { 1 | 2 => Some(40 + (termios / 8 % 24) as i32), 3 => Some(64 + (termios / 8 % 200) as i32), _ => None },
+        label: label.to_string() }
 }
 
 /// the scripted session that is dropped at every step index
@@ -1416,6 +1597,16 @@ fn fixed_sessions(rng: &mut Rng) -> Vec<Session> {
         Session { drop_at: Some(3), ..sess("pendingterm-drop-small-output", vec![Exec(4), Flush, Term(libc::SIGINT)], rng.next()) },
         sess("drop-with-frames", vec![Write(20, 1), Flush, Write(30, 2), Flush, Exec(0), Flush], rng.next()),
     ];
+    // escape-size mode, SIGWINCH while the poll runs with an EMPTY write queue: the size query is queued inside the loop and
+    // must still be written (interest in writability is recomputed every iteration); the poll has no time-out
+    v.push(Session { size_esc: true, ..sess("sizequery-idle-poll-inf", vec![WinchAsync(3000), WakeThreads(vec![vec![8000]]), Poll(Timeout::Inf), ms(20), z(), z()], rng.next()) });
+    v.push(Session { size_esc: true, ..sess("sizequery-idle-poll-inf-raised-before", vec![Winch, WakeThreads(vec![vec![3000]]), Poll(Timeout::Inf), ms(20), z(), z()], rng.next()) });
+    // position(): events that arrive while it waits for the emulator are set aside and must come back, also when the
+    // emulator is slow (1.6 s) — and in arrival order when more input follows the answer in the same read
+    v.push(sess("position-slow-answer", vec![Position { wake_us: 200_000, key: b"a".to_vec(), key_us: 300_000, delay_ms: 1600, suffix: vec![] }, z(), z(), z()], rng.next()));
+    v.push(sess("position-fast-answer", vec![WakeInline(1), Position { wake_us: 500, key: b"xy".to_vec(), key_us: 0, delay_ms: 3, suffix: vec![] }, z(), z(), z(), z()], rng.next()));
+    v.push(sess("position-input-behind-answer", vec![Keys(b"a".to_vec(), 0), KeysSync, Position { wake_us: 0, key: vec![], key_us: 0, delay_ms: 5, suffix: b"b".to_vec() },
+        z(), z(), z()], rng.next()));
     // exact numbers of pending wake bytes (a drain loop with a small buffer loses multiples of its size)
     for n in [4usize, 8, 16, 32, 64, 128, 192, 256] {
         v.push(sess(&format!("wake-count-{n}"), vec![WakeInline(n), z(), z(), ms(2)], rng.next()));
@@ -1449,7 +1640,7 @@ fn fixed_sessions(rng: &mut Rng) -> Vec<Session> {
     v
 }
 
-fn random_session(rng: &mut Rng, idx: u64) -> Session {
+fn random_session(rng: &mut Rng, idx: u64, thorough: bool) -> Session {
     use Step::*;
     let n = 4 + rng.below(14) as usize;
     let mut steps = Vec::new();
@@ -1500,7 +1691,20 @@ fn random_session(rng: &mut Rng, idx: u64) -> Session {
                     paused = true;
                 }
             }
-            17 => steps.push(Sleep(rng.below(3000))),
+            17 => {
+                if rng.chance(1, 2) {
+                    steps.push(Sleep(rng.below(3000)))
+                } else {
+                    // a slow emulator now and then (thorough tier only: each costs more than a second)
+                    let delay_ms = if thorough && rng.chance(1, 12) { 1100 + rng.below(700) } else { rng.below(4) };
+                    let nk = 1 + rng.below(3) as usize;
+                    let key = if rng.chance(1, 2) { keys(rng, nk) } else { vec![] };
+                    let suffix = if rng.chance(1, 3) { keys(rng, 1) } else { vec![] };
+                    steps.push(Position { wake_us: if rng.chance(1, 2) { 1 + rng.below(delay_ms * 500 + 2000) } else { 0 }, key, key_us: rng.below(delay_ms * 500 + 2000), delay_ms, suffix });
+                    paused = false;
+                    wake_guaranteed = false;
+                }
+            }
             18 => {
                 if rng.chance(1, 4) {
                     steps.push(FramesDrop)
@@ -1558,10 +1762,23 @@ fn run_guarded(s: &Session) -> Result<Outcome, String> {
         let r = guarded(|| run_session(&s2));
         let _ = tx.send(r);
     });
-    match rx.recv_timeout(Duration::from_secs(60)) {
-        Ok(Ok(o)) => Ok(o),
-        Ok(Err(())) => Err("the session panicked".into()),
-        Err(_) => Err("the session did not finish within 60 s (poll or drop never returned)".into()),
+    HOPELESS.store(false, Ordering::SeqCst);
+    let t0 = Instant::now();
+    loop {
+        match rx.recv_timeout(Duration::from_millis(200)) {
+            Ok(Ok(o)) => return Ok(o),
+            Ok(Err(())) => return Err("the session panicked".into()),
+            Err(mpsc::RecvTimeoutError::Disconnected) => return Err("the session thread died".into()),
+            Err(mpsc::RecvTimeoutError::Timeout) => {
+                if HOPELESS.load(Ordering::SeqCst) {
+                    return Err("a poll never returned: not on its deadline + 5 s / 10 s after a wake request, and not within 5 more seconds after the \
+                        harness resumed the peer, fired the waker and typed a key".into());
+                }
+                if t0.elapsed() > Duration::from_secs(60) {
+                    return Err("the session did not finish within 60 s (poll or drop never returned)".into());
+                }
+            }
+        }
     }
 }
 
@@ -1683,7 +1900,7 @@ fn main() {
     }
     let mut idx = 0u64;
     while hung < 2 && tot.sessions < target && t0.elapsed() < budget && out.failure_count < 8 {
-        let s = random_session(&mut rng, idx);
+        let s = random_session(&mut rng, idx, cfg.thorough);
         idx += 1;
         let r = run_guarded(&s);
         if !report(&mut out, &mut tot, &s, r) {
